@@ -581,6 +581,8 @@ func (e *env) runCont(c caseRec) (o obsRec, err error) {
 		MaskPaths:     masks,
 		WorkDir:       "/",
 		Stderr:        stderr,
+		// the namespaces of runner/unshare; no network / ipc namespace (irrelevant here, slow to create)
+		CloneFlags: unshare.UnshareFlags,
 	}
 	if len(mb.Mounts) == 0 {
 		// an empty table would silently be replaced by the default mounts: not a case of this check
